@@ -87,6 +87,19 @@ def observe(edges, scheme=None):
         inst = _np.asarray(inst)
         rec["grouped"] = int(_np.isfinite(inst[0]).all(axis=-1).sum()) if inst.shape[0] == 1 else -int(inst.shape[0])
         rec["nn"] = nn
+        if E >= 2 and rec["grouped"] == nn:
+            # ... and as it is used for a BATCH (PAFScorer.group_instances): the animal of the second frame is fully matched, the
+            # animal of the first frame only on the first listed edge - what one frame lacks must not cost the next one its order
+            peaks = torch.tensor([[10.0 * k, 5.0 * k] for k in range(nn)], dtype=torch.float32)
+            nest = torch.nested.nested_tensor
+            z = lambda n_, dt: torch.zeros(n_, dtype=dt)      # noqa: E731
+            pi, _pv, _ps = sc.group_instances(
+                nest([peaks, peaks]), nest([torch.ones(nn), torch.ones(nn)]), nest([torch.arange(nn, dtype=torch.int32)] * 2),
+                nest([torch.zeros(1, dtype=torch.int32), torch.arange(E, dtype=torch.int32)]),
+                nest([z(1, torch.int32), z(E, torch.int32)]), nest([z(1, torch.int32), z(E, torch.int32)]),
+                nest([torch.ones(1), torch.ones(E)]))
+            second = _np.asarray(pi[1])
+            rec["grouped"] = int(_np.isfinite(second[0]).all(axis=-1).sum()) if second.shape[0] == 1 else -int(second.shape[0])
         if [tuple(int(x) for x in e) for e in sc.edge_inds] != [tuple(e) for e in edges]:
             raise AssertionError("PAFScorer.edge_inds %s are not the skeleton's edges %s (names %s)" % (list(sc.edge_inds), edges, names))
     except Exception as e:  # totality is part of the property
